@@ -135,6 +135,14 @@ func (r *Run) Eval(key, outcome string) {
 	sh.mu.Unlock()
 }
 
+// Outcome adds n to the histogram entry k without counting an evaluation
+// (for results aggregated from worker processes).
+func (r *Run) Outcome(k string, n int64) {
+	r.mu.Lock()
+	r.outcomes[k] += n
+	r.mu.Unlock()
+}
+
 func (r *Run) totals() (evals int64, distinct int) {
 	for i := range r.shards {
 		sh := &r.shards[i]
